@@ -173,6 +173,45 @@ def random_call(rng):
     return cfg, n, obs_idx, rng.choice(sr.STATE_KINDS)
 
 
+def phase_long(chk, tier, seed, rng, tally):
+    """Draws of thousands of chains (num_chains = 0 means one chain per requested sample - the default): beyond
+    TLC's integers, decided in Python by the specification's own one-pass definition (exact rationals over every
+    recorded value), for statistics(), System.statistics() and statistics_from_samples()."""
+    import torch
+    for i, (S, C) in enumerate([(5000, 0), (4097, 0), (9000, 4500), (300, 0), (12000, 6001)][: 3 if tier == "quick" else 5]):
+        skind = sr.STATE_KINDS[i % len(sr.STATE_KINDS)]
+        st = sr.make_state(skind, 3, seed + 31 * i)
+        kind = "sys" if i % 2 else "obs"
+        obs_idx = [2, 0] if kind == "sys" else [2]
+        cfg = dict(kind=kind, nobs=len(obs_idx), S=S, C=C, burn=1, steps=1, L=0, ow=False)
+        names = [sr.OBS[j][0] for j in obs_idx]
+        sr.torch.manual_seed(seed + i)
+        out = sr.real_call(cfg, st, sr.make_obs(obs_idx), None)
+        chk.evaluations += 1
+        sr.check_numbers(tally, "long-draw", cfg, names, out, 3,
+                         info=dict(cfg=cfg, observables=names, state=skind, repro=dict(site="call", cfg=cfg, obs=obs_idx,
+                                                                                       state=[skind, 3, seed + 31 * i], seed=seed + i)))
+        # statistics_from_samples on a long batch
+        rows = [4097, 7000, 10001, 5000][i % 4]
+        g = torch.Generator().manual_seed(seed + i)
+        batch = torch.randint(0, 2, (rows, 3), generator=g).to(torch.double)
+        obs = sr.make_obs([2])[0]
+        before = batch.clone()
+        r = obs.statistics_from_samples(st, batch)
+        ys = sr.scaled_values(obs, st, before)
+        mean, var, N = sr.exact_stats(ys, 3)
+        chk.evaluations += 1
+        bad = [k for k, ok in (("mean", sr._close(r["mean"], mean)), ("variance", sr._close(r["variance"], var)),
+                               ("std_error", sr._close(r["std_error"], (float(var) / N) ** 0.5)),
+                               ("num_samples", r["num_samples"] == N)) if not ok]
+        if bad or not torch.equal(batch, before):
+            tally.add("long-batch:statistics_from_samples:" + (bad[0] if bad else "batch-modified"),
+                      "statistics of a long batch differ from one pass over its values",
+                      dict(rows=rows, state=skind, observable=sr.OBS[2][0], reported={k: r[k] for k in r},
+                           one_pass=dict(mean=str(mean), variance=str(var), num_samples=N)), rows)
+        chk.nontriv(("long", i))
+
+
 def phase_traces(chk, tier, seed, rng, tally):
     ncalls = 150 if tier == "quick" else 3000
     lines, metas = [], []
@@ -347,6 +386,7 @@ def run(tier, seed):
         phase_merge(chk, tier, tally)
         phase_schedule(chk, tier, seed, rng, tally)
         phase_traces(chk, tier, seed, rng, tally)
+        phase_long(chk, tier, seed, rng, tally)
     tally.flush(chk)
     if not chk.violations:
         # the same contract for USER-defined observables through System and ObservableEvaluator
